@@ -47,7 +47,7 @@ fn violation(msg: String) -> ! {
 #[derive(Clone)]
 struct Job {
     engine: usize,
-    layer: usize, // 0 ReedSolomon, 1 DefaultRate, 2 HighRate, 3 LowRate
+    layer: usize, // 0 ReedSolomon, 1 DefaultRate, 2 HighRate, 3 LowRate, 4 one-shot encode()/decode()
     k: usize,
     r: usize,
     b: usize,
@@ -62,8 +62,8 @@ fn draw_job(rng: &mut impl Rng) -> Job {
     if (engine == 2 && !std::is_x86_feature_detected!("ssse3")) || (engine == 3 && !std::is_x86_feature_detected!("avx2")) {
         engine = 1;
     }
-    let layer = rng.gen_range(0..4usize);
-    let engine = if layer == 0 { 4 } else { engine };
+    let layer = rng.gen_range(0..5usize);
+    let engine = if layer == 0 || layer == 4 { 4 } else { engine };
     Job {
         engine,
         layer,
@@ -120,7 +120,7 @@ fn encode_round<E: Engine + 'static, T: RateEncoder<E>>(enc: &mut T, job: &Job, 
 fn desc(job: &Job) -> String {
     format!(
         "{}<{}> ({},{},{})",
-        ["ReedSolomon", "DefaultRate", "HighRate", "LowRate"][job.layer],
+        ["ReedSolomon", "DefaultRate", "HighRate", "LowRate", "one-shot"][job.layer],
         ENGINE_NAMES[job.engine],
         job.k,
         job.r,
@@ -236,12 +236,36 @@ fn run_job(job: &Job, tx: &shuttle::sync::mpsc::Sender<Continuation>) {
         run_rs(job, tx);
         return;
     }
+    if job.layer == 4 {
+        run_oneshot(job);
+        return;
+    }
     match job.engine {
         0 => with_layer!(Naive),
         1 => with_layer!(NoSimd),
         2 => with_layer!(Ssse3),
         3 => with_layer!(Avx2),
         _ => with_layer!(DefaultEngine),
+    }
+}
+
+/// The one-shot functions (they may keep state of their own between calls).
+fn run_oneshot(job: &Job) {
+    for round in 0..job.rounds + 1 {
+        let originals = originals_of(job, round);
+        let recovery = reed_solomon_simd::encode(job.k, job.r, &originals).unwrap_or_else(|e| violation(format!("one-shot encode failed: {e:?} ({})", desc(job))));
+        let want = Code::new(if is_high(job) { Rate::High } else { Rate::Low }, job.k, job.r).encode(&originals);
+        if recovery != want {
+            violation(format!("one-shot encode: recovery shards differ from the sequential reference R1 ({})", desc(job)));
+        }
+        P_ROUNDS.fetch_add(1, Ordering::Relaxed);
+        // lose original 0, give recovery 0 instead
+        let orig: Vec<(usize, &Vec<u8>)> = originals.iter().enumerate().skip(1).collect();
+        let restored = reed_solomon_simd::decode(job.k, job.r, orig, [(0usize, &recovery[0])]).unwrap_or_else(|e| violation(format!("one-shot decode failed: {e:?} ({})", desc(job))));
+        if restored.len() != 1 || restored.get(&0) != Some(&originals[0]) {
+            violation(format!("one-shot decode: restored original differs from the sequential result ({})", desc(job)));
+        }
+        P_DECODES.fetch_add(1, Ordering::Relaxed);
     }
 }
 
